@@ -967,7 +967,8 @@ var c08PacketClasses = []string{"stale-epoch", "stale-epoch-minus-one", "nil-ter
 	"unknown-scheme", "leader-not-remaining", "leader-leaving", "leader-joining", "foreign-beacon-id-in-terms",
 	"foreign-beacon-id-in-metadata", "well-formed",
 	"changed-beacon-period", "changed-beacon-period-as-leaver", "changed-scheme", "changed-scheme-as-leaver",
-	"changed-beacon-period", "changed-scheme", "remainers-below-prior-threshold", "remainers-below-prior-threshold"}
+	"changed-beacon-period", "changed-scheme", "remainers-below-prior-threshold", "remainers-below-prior-threshold",
+	"member-dropped-behind-a-duplicate", "member-dropped-behind-a-duplicate"}
 
 func vfdShuffledStrings(rng *vfRng, l []string) []string {
 	out := make([]string, len(l))
@@ -1031,6 +1032,20 @@ func (h *c08H) forgedProposal(T *vfdNode, class string) bool {
 		terms.Remaining = c08RemoveAddr(terms.Remaining, drop.addr)
 		if int(terms.Threshold) < (len(members)-1)/2+1 {
 			terms.Threshold = uint32((len(members)-1)/2 + 1)
+		}
+	case "member-dropped-behind-a-duplicate":
+		// a current member is in neither list, and the COUNT of listed nodes is kept up by listing another member twice
+		// (twice as remaining, or as remaining and as leaving)
+		if !hasFin || len(members) < 3 || int(v.fin.Threshold) > len(members)-1 {
+			return false
+		}
+		drop := h.pick(c08Without(members, T, leader))
+		dup := h.pick(c08Without(members, drop))
+		terms.Remaining = c08RemoveAddr(terms.Remaining, drop.addr)
+		if h.rng.Bool() {
+			terms.Remaining = append(terms.Remaining, proto.Clone(dup.part).(*pdkg.Participant))
+		} else {
+			terms.Leaving = append(terms.Leaving, proto.Clone(dup.part).(*pdkg.Participant))
 		}
 	case "genesis-time-changed":
 		if !hasFin {
@@ -1134,7 +1149,8 @@ func (h *c08H) forgedProposal(T *vfdNode, class string) bool {
 }
 
 var c08CmdClasses = []string{"threshold-above-n", "threshold-below-minimum", "expired-timeout", "member-dropped",
-	"leader-not-remaining", "leader-joining", "unknown-scheme", "stale-initial", "remainers-below-prior-threshold"}
+	"leader-not-remaining", "leader-joining", "unknown-scheme", "stale-initial", "remainers-below-prior-threshold",
+	"member-dropped-behind-a-duplicate", "reshare-before-any-epoch"}
 
 // invalidCommand: an operator command carrying an invalid proposal.
 func (h *c08H) invalidCommand(P *vfdNode, class string) bool {
@@ -1152,6 +1168,12 @@ func (h *c08H) invalidCommand(P *vfdNode, class string) bool {
 			timeout = time.Now().Add(-time.Second)
 		case "unknown-scheme":
 			scheme = "bls-vf-no-such-scheme"
+		case "reshare-before-any-epoch":
+			// a node that never completed an epoch (whatever became of its first attempt) has nothing to reshare
+			_ = h.step(c08Opt{kind: "cmd-reshare", class: class, actor: P, target: P, mustReject: true}, func() error {
+				return P.cmdReshare(2, 1, timeout, vfdParts(set[2:]), vfdParts(set[:2]), nil)
+			})
+			return true
 		default:
 			return false
 		}
@@ -1194,6 +1216,14 @@ func (h *c08H) invalidCommand(P *vfdNode, class string) bool {
 	case "leader-joining":
 		remaining = c08Without(remaining, P)
 		joining = []*vfdNode{P}
+	case "member-dropped-behind-a-duplicate":
+		if len(members) < 3 || int(v.fin.Threshold) > len(members)-1 {
+			return false
+		}
+		drop := h.pick(c08Without(members, P))
+		dup := h.pick(c08Without(members, drop))
+		remaining = append(c08Without(remaining, drop), dup)
+		fixThr(len(remaining) - 1)
 	case "remainers-below-prior-threshold":
 		if v.fin.Threshold < 2 {
 			return false
